@@ -195,6 +195,39 @@ def large_case(ctx, idx, rng):
         ctx.ok('large.singlesite-bonds-do-not-grow', all(x <= y for x, y in zip(psi.bond_dims, D_in)), f'{D_in} -> {psi.bond_dims}', detail)
 
 
+def huge_bond_case(ctx, idx, rng):
+    """Chains long enough to carry really large bond dimensions (Fermi-Hubbard d = 4, L = 10, saturated bonds up to ~290 single-site; L = 8, ~150 two-site): local work
+    arrays beyond 2**19 entries (anything that switches to a blocked contraction above a size threshold). Norm, energy and charges through transfer matrices."""
+    from .. import large
+    two = bool(idx % 4 == 3)
+    name, L, Dmax = 'fermi', 10, int(rng.integers(150, 171))
+    if two:
+        L, Dmax = 8, int(rng.integers(76, 90))
+    H = gen.model(name, L, gen.generic_params(rng))
+    # saturated bonds (every reachable sector with full multiplicity up to the cap): they survive the right-orthonormalisation inside the integrator,
+    # so the central site tensors really have d * D_left * D_right * D_mpo > 2**19 entries
+    psi = gen.rand_mps(rng, H.qd, L, 'max', Dmax=Dmax, kind='complex')
+    psi.orthonormalize('right')
+    fn = ptn.integrate_local_twosite if two else ptn.integrate_local_singlesite
+    dt = 1j * float(rng.uniform(0.02, 0.1))
+    n0 = large.norm_of(psi.A)
+    E0 = refs.mpo_element(psi.A, H.A, psi.A).real / n0 ** 2
+    D_in = list(psi.bond_dims)
+    ends = (psi.qD[0].copy(), psi.qD[-1].copy())
+    integ = 'twosite' if two else 'singlesite'
+    ctx.case(('huge-bonds', integ, name, f'L{L}', f'Dmax{max(D_in) // 50 * 50}+'), sample={'integrator': integ, 'model': name, 'L': L, 'bond_dims': D_in, 'mpo_bond_dims': H.bond_dims, 'dt': dt})
+    detail = {'integrator': integ, 'model': name, 'L': L, 'bond_dims': D_in, 'mpo_bond_dims': H.bond_dims, 'dt': dt}
+    ret = fn(H, psi, dt, 1, numiter_lanczos=3)
+    inv = refs.mps_invariant(psi)
+    if not ctx.ok('huge.block-sparse-after', inv is None, str(inv), detail):
+        return
+    nH = float(np.sum([np.linalg.norm(w) for w in H.A]))
+    ctx.close('huge.return==norm-of-input', abs(float(ret) - n0), 1e-9 * n0, 'return value', detail)
+    ctx.close('huge.norm-conserved', abs(large.norm_of(psi.A) - 1), 1e-9, 'norm not conserved', detail)
+    ctx.close('huge.energy-conserved', abs(refs.mpo_element(psi.A, H.A, psi.A).real - E0), 1e-9 * max(1.0, abs(E0), nH), 'energy not conserved', detail)
+    ctx.ok('huge.total-charge-kept', np.array_equal(psi.qD[0], ends[0]) and np.array_equal(psi.qD[-1], ends[1]), 'boundary quantum numbers changed', detail)
+
+
 def mutate_mpo_in_place(rng, H):
     """Changes the Hamiltonian held by the SAME MPO object: in-place rescaling of a tensor, in-place edit of a Hermitian on-site block,
     rebinding of a tensor, or a gauge change by the public orthonormalize(). Returns a label; H stays Hermitian."""
@@ -266,6 +299,7 @@ SPEC = {
         Workload('tdvp', tdvp_case, quick=520, thorough=48000),
         Workload('long-runs', long_run_case, quick=32, thorough=2400),
         Workload('large', large_case, quick=60, thorough=4000),
+        Workload('huge-bonds', huge_bond_case, quick=1, thorough=32),
         Workload('quench', quench_case, quick=200, thorough=16000),
     ],
     'shards': {'quick': 4, 'thorough': 16},
